@@ -268,6 +268,13 @@ func c02TypedRun(capPath string, n int) (viols []seamViol, err error) {
 	)
 	for i := 0; i < n; i++ {
 		l := fmt.Sprintf("typed line %03d with \"quotes\" and a trailing blank ", i)
+		switch i % 5 {
+		case 2:
+			/* Enter on an empty prompt is a line like any other (C02-U). */
+			l = ""
+		case 4:
+			l = " "
+		}
 		want = append(want, l)
 		paste.WriteString(l + "\r")
 	}
